@@ -415,7 +415,7 @@ func runSrv(r *mon.Run) {
 			}
 		}
 		frag, fname := fragFor(rnd, script.Len())
-		srv := &fasthttp.Server{MaxRequestBodySize: cfgL, ReadBufferSize: rbs, ReduceMemoryUsage: rnd.Intn(4) == 0}
+		srv := &fasthttp.Server{MaxRequestBodySize: cfgL, ReadBufferSize: rbs, ReduceMemoryUsage: rnd.Intn(4) == 0, SecureErrorLogMessage: rnd.Intn(2) == 0, LogAllErrors: rnd.Intn(2) == 0}
 		switch acceptor {
 		case 1:
 			srv.ContinueHandler = func(*fasthttp.RequestHeader) bool { return true }
@@ -579,9 +579,10 @@ func runHead(r *mon.Run) {
 		script = append(script, head...)
 		script = append(script, followUp...)
 		frag, fname := fragFor(rnd, len(script))
-		srv := &fasthttp.Server{ReadBufferSize: rbs, ReduceMemoryUsage: rnd.Intn(4) == 0}
+		secure, logAll := rnd.Intn(2) == 0, rnd.Intn(2) == 0
+		srv := &fasthttp.Server{ReadBufferSize: rbs, ReduceMemoryUsage: rnd.Intn(4) == 0, SecureErrorLogMessage: secure, LogAllErrors: logAll}
 		calls, conn, panicked, fin := serve(srv, script, frag, false, false)
-		payload := map[string]any{"read_buffer_size": rbs, "effective": eff, "head_len": h, "second_on_connection": second, "frag": fname, "head": mon.Short(head, 120)}
+		payload := map[string]any{"read_buffer_size": rbs, "effective": eff, "head_len": h, "second_on_connection": second, "frag": fname, "head": mon.Short(head, 120), "secure_error_log_message": secure, "log_all_errors": logAll}
 		if !fin {
 			r.Inconclusive(fmt.Sprintf("head case %d: ServeConn did not return", ci))
 			return
@@ -590,7 +591,7 @@ func runHead(r *mon.Run) {
 			r.Violation(ci, "panic", fmt.Sprintf("ServeConn panicked: %v", panicked), payload)
 			return
 		}
-		r.Case(fmt.Sprintf("head/%s/rbs=%d/second=%t/frag=%s", rel, rbs, second, fname), tooBig)
+		r.Case(fmt.Sprintf("head/%s/rbs=%d/second=%t/frag=%s/secure=%t/logall=%t", rel, rbs, second, fname, secure, logAll), tooBig)
 		r.Event("head_cases", 1)
 		resps, err := parseResponses(conn.Written(), 5)
 		if err != nil {
@@ -614,6 +615,9 @@ func runHead(r *mon.Run) {
 			return
 		}
 		r.Event("head_too_big_checked", 1)
+		if secure {
+			r.Event("head_too_big_checked_secure_error_log", 1)
+		}
 		wantCalls := first
 		if len(calls) != wantCalls {
 			r.Violation(ci, "head-too-big-reached-handler", fmt.Sprintf("handler invoked %d times (expected %d): head of %d bytes with ReadBufferSize %d", len(calls), wantCalls, h, eff), payload)
@@ -641,6 +645,7 @@ func runHead(r *mon.Run) {
 	if !r.Replaying() {
 		r.Require("head_cases", n)
 		r.Require("head_too_big_checked", n/4)
+		r.Require("head_too_big_checked_secure_error_log", n/10)
 		r.Require("head_fits_served", n/8)
 	}
 }
@@ -1095,7 +1100,7 @@ func unz(codec, obj, method string, z []byte, L int) (out []byte, err error) {
 }
 
 func runUnz(r *mon.Run, bs *bombSet) {
-	n := r.N(2500, 60_000)
+	n := r.N(2500, 40_000)
 	mon.Parallel(n, 0, func(i int) {
 		ci := baseUnz + i
 		if !r.Want(ci) {
@@ -1109,11 +1114,68 @@ func runUnz(r *mon.Run, bs *bombSet) {
 		var z, plain []byte
 		plainLen := 0
 		what := ""
-		switch k := rnd.Intn(10); {
+		firstLen := -1                              // concatenated input: decoded length of its first member
+		multi := codec == "gzip" || codec == "zstd" // codings whose streams may consist of several members / frames
+		one := encode(codec, strings.NewReader("x"))
+		join := func(parts ...[]byte) []byte {
+			var b []byte
+			for _, p := range parts {
+				b = append(b, p...)
+			}
+			return b
+		}
+		switch k := rnd.Intn(14); {
 		case k < 2:
 			z, plainLen, what = bs.big[codec], bombSize, "bomb256M"
 		case k < 4:
 			z, plainLen, what = bs.small[codec], 8<<20, "bomb8M"
+		case k < 6:
+			// a bomb followed by a tiny member (gzip, zstd) / by trailing garbage (deflate, brotli): sizes announced
+			// by the LAST member or trailer say nothing about the whole
+			if multi {
+				z, plainLen, firstLen, what = join(bs.small[codec], one), 8<<20+1, 8<<20, "concat-bomb8M+x"
+			} else {
+				z, plainLen, firstLen, what = join(bs.small[codec], []byte("x\x00\x00\x00\x01\x00\x00\x00")), 8<<20, 8<<20, "bomb8M+garbage"
+			}
+		case k < 7:
+			if multi {
+				z, plainLen, firstLen, what = join(one, bs.big[codec], one), bombSize+2, 1, "concat-x+bomb256M+x"
+			} else {
+				z, plainLen, firstLen, what = join(bs.big[codec], []byte{1, 0, 0, 0}), bombSize, bombSize, "bomb256M+garbage"
+			}
+		case k < 9:
+			// two members, each within the limit, together L-1 / L / L+1 / L+k
+			if L > 1<<20 {
+				L = limits[rnd.Intn(8)]
+			}
+			d := []int{-1, 0, 1, 1, 2 + rnd.Intn(3000)}[rnd.Intn(5)]
+			sum := L + d
+			lo, hi := sum-L, L
+			if lo < 0 {
+				lo = 0
+			}
+			if hi > sum {
+				hi = sum
+			}
+			a := lo
+			if hi > lo {
+				a = lo + rnd.Intn(hi-lo+1)
+			}
+			plain = make([]byte, sum)
+			fill(plain, rnd)
+			if multi {
+				z = join(encode(codec, bytes.NewReader(plain[:a])), encode(codec, bytes.NewReader(plain[a:])))
+				plainLen, firstLen, what = sum, a, fmt.Sprintf("concat-a+b=L%+d", d)
+				if d > 1 {
+					what = "concat-a+b=L+k"
+				}
+			} else {
+				z = join(encode(codec, bytes.NewReader(plain)), []byte{0xff, 0, 0, 0})
+				plainLen, firstLen, what = sum, sum, fmt.Sprintf("L%+d+garbage", d)
+				if d > 1 {
+					what = "L+k+garbage"
+				}
+			}
 		default:
 			if L > 1<<20 && rnd.Intn(4) != 0 {
 				L = limits[rnd.Intn(8)]
@@ -1149,11 +1211,20 @@ func runUnz(r *mon.Run, bs *bombSet) {
 		over := plainLen > L
 		r.Case(fmt.Sprintf("unz/%s/%s/%s/%s/L=%s", codec, obj, method, what, lc), true)
 		r.Event("unz_cases", 1)
+		if firstLen >= 0 {
+			r.Event("unz_concatenated_inputs", 1)
+			if over {
+				r.Event("unz_concatenated_over_limit_"+codec, 1)
+			}
+		}
 		if len(out) > L {
 			r.Violation(ci, "withlimit-returned-over-limit", fmt.Sprintf("%s %s(%s) with limit %d returned %d bytes (err=%v)", obj, method, codec, L, len(out), err), payload)
 			return
 		}
 		switch {
+		case over && err == nil && firstLen >= 0 && firstLen <= L && len(out) == firstLen:
+			// a decoder that stops after the first member returned nothing above L: not a C07 matter
+			r.Event("unz_concat_first_member_only", 1)
 		case over && err == nil:
 			r.Violation(ci, "withlimit-over-limit-silently-truncated", fmt.Sprintf("%s %s(%s) with limit %d returned %d of %d bytes and no error", obj, method, codec, L, len(out), plainLen), payload)
 		case over:
@@ -1168,7 +1239,9 @@ func runUnz(r *mon.Run, bs *bombSet) {
 			noteOnce(r, "unz_within_rejected_"+codec, fmt.Sprintf("%s %s(%s) with limit %d rejected a %d-byte payload: %q", obj, method, codec, L, plainLen, err))
 		default:
 			r.Event("unz_within_limit_accepted", 1)
-			if plain != nil && !bytes.Equal(out, plain) {
+			if firstLen >= 0 && len(out) == firstLen && bytes.Equal(out, plain[:firstLen]) {
+				r.Event("unz_concat_first_member_only", 1)
+			} else if plain != nil && !bytes.Equal(out, plain) {
 				r.Violation(ci, "withlimit-accepted-body-corrupted", fmt.Sprintf("%d bytes returned, %d expected, contents differ", len(out), len(plain)), payload)
 			}
 		}
@@ -1180,6 +1253,9 @@ func runUnz(r *mon.Run, bs *bombSet) {
 		r.Require("unz_cases", n)
 		r.Require("unz_over_limit_checked", n/4)
 		r.Require("unz_within_limit_accepted", n/8)
+		for _, c := range codecNames {
+			r.Require("unz_concatenated_over_limit_"+c, n/100)
+		}
 	}
 }
 
@@ -1292,6 +1368,12 @@ func runMP(r *mon.Run) {
 		wire := body
 		if strings.HasSuffix(mode, "gzip") {
 			wire = encode("gzip", bytes.NewReader(body))
+			if rnd.Intn(2) == 0 && len(body) > 1 {
+				// the same body as two gzip members (a trailer then describes only the second one)
+				cut := 1 + rnd.Intn(len(body)-1)
+				wire = append(encode("gzip", bytes.NewReader(body[:cut])), encode("gzip", bytes.NewReader(body[cut:]))...)
+				r.Event("mp_gzip_two_members", 1)
+			}
 			req.Header.SetContentEncoding("gzip")
 		}
 		if strings.HasPrefix(mode, "api-stream") {
@@ -1360,7 +1442,7 @@ type histReq struct {
 // limit) and the zero RequestConfig for the others; a request with the zero config is bound by
 // Server.MaxRequestBodySize (or the 4 MiB default), whatever an earlier request on the connection was granted.
 func runHist(r *mon.Run) {
-	n := r.N(2500, 60_000)
+	n := r.N(2500, 40_000)
 	mon.Parallel(n, 0, func(i int) {
 		ci := baseHist + i
 		if !r.Want(ci) {
@@ -1858,6 +1940,36 @@ func runAlloc(r *mon.Run, bs *bombSet) {
 			}
 		}
 	}
+	// concatenations: the bomb is not the last member / frame (what a trailer of the last one announces is irrelevant)
+	x := map[string][]byte{"gzip": encode("gzip", strings.NewReader("x")), "zstd": encode("zstd", strings.NewReader("x"))}
+	for _, c := range []string{"gzip", "zstd"} {
+		for _, L := range []int{1024, 1 << 20} {
+			c, L := c, L
+			zz := append(append([]byte(nil), bs.big[c]...), x[c]...)
+			for _, method := range unzMethods {
+				method := method
+				cases = append(cases, allocCase{fmt.Sprintf("bomb256M/concat-bomb+x/%s/%s", c, method), L, func() string {
+					out, err := unz(c, "resp", method, zz, L)
+					return fmt.Sprintf("returned %d bytes, err=%v", len(out), err)
+				}})
+			}
+		}
+	}
+	mpConcat := append(append([]byte(nil), bs.mp...), x["gzip"]...)
+	cases = append(cases, allocCase{"bomb256M/multipart-gzip-concat-bomb+x", 1024, func() string {
+		var req fasthttp.Request
+		req.Header.SetMethod("POST")
+		req.Header.SetContentType("multipart/form-data; boundary=" + mpBoundary)
+		req.Header.SetContentEncoding("gzip")
+		req.SetBodyRaw(mpConcat)
+		f, err := req.MultipartFormWithLimit(1024)
+		n := -1
+		if err == nil {
+			n = formTotal(f)
+		}
+		req.RemoveMultipartFormFiles()
+		return fmt.Sprintf("form payload %d, err=%v", n, err)
+	}})
 	for _, L := range []int{1, 1 << 20} {
 		L := L
 		cases = append(cases, allocCase{"bomb256M/multipart-gzip", L, func() string {
